@@ -99,6 +99,25 @@ def run_tree(rec, tier, seed, ti, spec):
                 if not ok:
                     rec.violation("family-action", "tree %d %s reports family/action %r/%r, declared %s/%s" % (ti, name, f, a, decl.family, decl.action),
                                   {"tree": ti, "class": name, "xml": t.files})
+        if ti == -1 and saved:
+            # generated serializers called from several threads at once, each with its own writer and its own
+            # share of the values: the bytes must be the ones obtained single-threaded
+            from vf.mon import threads as thr
+
+            todo = [x for x in saved if x[2][0] == "bytes"]
+
+            def work(tid, rnd):
+                for obj, mode, res in todo[tid::4]:
+                    got = real_serialize(t, obj, mode)
+                    if got != res:
+                        return [("bytes-differ", "tree %d %s: serialized from a worker thread (others serializing other classes) gives %r, single-threaded %r" % (ti, obj.cls[0], got, res), {"tree": ti, "class": obj.cls[0], "threads": 4})]
+                return []
+            found, errors = thr.hammer(work, 4, 2)
+            for e in errors:
+                rec.violation("unexpected-exception:thread", "a worker thread died: " + e, {"tree": ti})
+            for mech, msg, case in found[:2]:
+                rec.violation(mech, msg, case)
+            rec.count("serializations-from-concurrent-threads", 2 * len(todo))
     # metamorphic twin: every boolean default spelled out
     with campaign.Tree(spec, explicit=True) as t2:
         if t2.error is not None:
